@@ -400,7 +400,7 @@ def k2_expr(case):
     chans = clist(p["chans"], lambda c: "{| c_w := %s; c_tgt := %s; c_amp := %s |}" % (
         clist(c["w"], cz), clist(c["tgt"], lambda x: copt(x, cnat)), clist(c["amp"], cz)))
     prob = "{| p_h := %s; p_rate := %s; p_chans := %s |}" % (cz(p["h"]), clist(p["rate"], cz), chans)
-    ls = clist(case["streams"], lambda st: clist(st, lambda k: "(%d * 2^67)" % k))
+    ls = clist(case["streams"], lambda st: clist(st, lambda k: "(%d * 2^1147)" % k))
     hs = clist(case["hist"], lambda h: "(%s, %s, %s, %s)" % (cz(h[0]), cnat(h[1]), clist(h[2], cz),
                                                           cbool(h[3])))
     return "i_observe %s %s %s" % (prob, ls, hs)
@@ -996,6 +996,8 @@ class Oracle:
                     self.bad(spec, "draw-order", "unexpected-generator-method:%s" % sorted(kinds))
                     return
                 ncol = len(res.collapse[k])
+                if spec.get("improved") and not calls and ncol == 0:
+                    continue    # dark initial state: documented all-zero trajectory, no draw
                 want = 1 + ncol * (2 if nch > 1 else 1)
                 extra = len(calls) - want
                 if extra < 0 or (nch == 1 and extra != 0):
@@ -1220,6 +1222,9 @@ def run(ctx):
             ctx.cov["traces_validated_against_impl"] += 1
             for ev in c["hist"]:
                 dist["k3/" + ev[0]] = dist.get("k3/" + ev[0], 0) + 1
+            if mt != mf:
+                dist["k3/cases-telling-restore-from-leak"] = \
+                    dist.get("k3/cases-telling-restore-from-leak", 0) + 1
             if im == mt:
                 continue
             if im == mf:
@@ -1242,7 +1247,7 @@ def run(ctx):
     ctx.sample({"k3_case": c3[-1], "impl": i3[-1]})
 
     # ---------------------------------------------------------------- oracle
-    budget = 75 if ctx.quick else 600
+    budget = 75 if ctx.quick else 480
     t0 = time.time()
     for spec in corpus["oracle"]:
         orc.one_problem(spec)
